@@ -2,7 +2,7 @@ import HypatiaProofs.Lemmas.ConcurrencyTextMerged2
 
 /-!
 The merged postings: the second transaction's entries on its docids, the first one's elsewhere
-(`merged_pt`), and the structure of the merged heap (`merged_struct`).
+(`tm_pt`), and the structure of the merged heap (`tm_struct`).
 -/
 set_option linter.unusedSectionVars false
 set_option linter.unusedSimpArgs false
@@ -21,7 +21,7 @@ theorem pt_of_wi {h : THeap W Wt} {w : Nat} {v : Option (PVal Wt)} (e : AMap.get
   unfold pt; rw [posting_of_get, e]
 
 /-- a snapshot tree in the merged heap -/
-theorem merged_tree_shared (ctx : TCtx c H T a b Ta Tb Da Db) (ms : MergedSpec H a b M) (o : Oid) (s0 : AMap Int Wt)
+theorem tm_tree_shared (ctx : TCtx c H T a b Ta Tb Da Db) (ms : MergedSpec H a b M) (o : Oid) (s0 : AMap Int Wt)
     (h0 : AMap.get H.tree o = some s0) :
     ∃ ta tb s, AMap.get a.heap.tree o = some ta ∧ AMap.get b.heap.tree o = some tb ∧ AMap.get M.tree o = some s ∧
       mergeObj resolveMap (tdirty a.writes (.tree o)) (tdirty b.writes (.tree o)) s0 ta tb = some s := by
@@ -37,7 +37,7 @@ theorem merged_tree_shared (ctx : TCtx c H T a b Ta Tb Da Db) (ms : MergedSpec H
   exact ⟨ta, tb, s, hta, htb, hs, hm⟩
 
 /-- a tree allocated by the second transaction is stored as it is -/
-theorem merged_tree_b (ctx : TCtx c H T a b Ta Tb Da Db) (ms : MergedSpec H a b M) (o : Oid)
+theorem tm_tree_b (ctx : TCtx c H T a b Ta Tb Da Db) (ms : MergedSpec H a b M) (o : Oid)
     (hb : (AMap.get b.heap.tree o).isSome) (hH : AMap.get H.tree o = none) :
     AMap.get M.tree o = AMap.get b.heap.tree o := by
   obtain ⟨tb, htb⟩ := Option.isSome_iff_exists.mp hb
@@ -47,7 +47,7 @@ theorem merged_tree_b (ctx : TCtx c H T a b Ta Tb Da Db) (ms : MergedSpec H a b 
   rw [this, htb]
 
 /-- a tree allocated by the first transaction stays -/
-theorem merged_tree_a (ctx : TCtx c H T a b Ta Tb Da Db) (ms : MergedSpec H a b M) (o : Oid)
+theorem tm_tree_a (ctx : TCtx c H T a b Ta Tb Da Db) (ms : MergedSpec H a b M) (o : Oid)
     (ha : (AMap.get a.heap.tree o).isSome) (hH : AMap.get H.tree o = none) :
     AMap.get M.tree o = AMap.get a.heap.tree o := by
   have hme : o.1 = a.me := by
@@ -88,7 +88,7 @@ theorem pt_agree_a (ctx : TCtx c H T a b Ta Tb Da Db) (ms : MergedSpec H a b M) 
       simp only [pvalPosting]
       have hres := ctx.base.core.struct.refs w o hv
       obtain ⟨s0, hs0⟩ := Option.isSome_iff_exists.mp hres
-      obtain ⟨ta, tb, s, hta, htb, hs, hm⟩ := merged_tree_shared ctx ms o s0 hs0
+      obtain ⟨ta, tb, s, hta, htb, hs, hm⟩ := tm_tree_shared ctx ms o s0 hs0
       have hemp : tb = [] := by
         have := ctx.fb.emp w o hv (by rw [← hv]; exact eb)
         rw [htb] at this; exact Option.some.inj this
@@ -128,7 +128,7 @@ theorem pt_agree_b (ctx : TCtx c H T a b Ta Tb Da Db) (ms : MergedSpec H a b M) 
       simp only [pvalPosting]
       have hres := ctx.base.core.struct.refs w o hv
       obtain ⟨s0, hs0⟩ := Option.isSome_iff_exists.mp hres
-      obtain ⟨ta, tb, s, hta, htb, hs, hm⟩ := merged_tree_shared ctx ms o s0 hs0
+      obtain ⟨ta, tb, s, hta, htb, hs, hm⟩ := tm_tree_shared ctx ms o s0 hs0
       have hemp : ta = [] := by
         have := ctx.fa.emp w o hv (by rw [← hv]; exact ea)
         rw [hta] at this; exact Option.some.inj this
@@ -168,8 +168,8 @@ inductive WiClass (H : THeap W Wt) (a b : TTx W Wt) (M : THeap W Wt) (w : Nat) :
       (ea : AMap.get a.heap.wordinfo w ≠ AMap.get H.wordinfo w)
       (em : AMap.get M.wordinfo w = AMap.get a.heap.wordinfo w) (ep : M.posting w = a.heap.posting w)
 
-theorem merged_class (ctx : TCtx c H T a b Ta Tb Da Db) (ms : MergedSpec H a b M) (w : Nat) : WiClass H a b M w := by
-  rcases merged_wi ctx ms w with ⟨ea, em⟩ | ⟨eb, em⟩
+theorem tm_class (ctx : TCtx c H T a b Ta Tb Da Db) (ms : MergedSpec H a b M) (w : Nat) : WiClass H a b M w := by
+  rcases tm_wi ctx ms w with ⟨ea, em⟩ | ⟨eb, em⟩
   · by_cases eb : AMap.get b.heap.wordinfo w = AMap.get H.wordinfo w
     · exact .both ea eb (em.trans eb)
     · refine .isB ea eb em ?_
@@ -188,7 +188,7 @@ theorem merged_class (ctx : TCtx c H T a b Ta Tb Da Db) (ms : MergedSpec H a b M
             | some t =>
               have := ctx.fb.inh w ob hvb (by rw [hg]; rfl)
               exact absurd (hvb.trans this.symm) eb
-          rw [merged_tree_b ctx ms ob hbt hH]
+          rw [tm_tree_b ctx ms ob hbt hH]
   · by_cases ea : AMap.get a.heap.wordinfo w = AMap.get H.wordinfo w
     · exact .both ea eb (em.trans ea)
     · refine .isA eb ea em ?_
@@ -207,12 +207,12 @@ theorem merged_class (ctx : TCtx c H T a b Ta Tb Da Db) (ms : MergedSpec H a b M
             | some t =>
               have := ctx.fa.inh w oa hva (by rw [hg]; rfl)
               exact absurd (hva.trans this.symm) ea
-          rw [merged_tree_a ctx ms oa hat hH]
+          rw [tm_tree_a ctx ms oa hat hH]
 
 /-- **the merged postings**: `b`'s entries on `b`'s docids, `a`'s elsewhere -/
-theorem merged_pt (ctx : TCtx c H T a b Ta Tb Da Db) (ms : MergedSpec H a b M) (w : Nat) (d : Int) :
+theorem tm_pt (ctx : TCtx c H T a b Ta Tb Da Db) (ms : MergedSpec H a b M) (w : Nat) (d : Int) :
     pt M w d = if d ∈ Db then pt b.heap w d else pt a.heap w d := by
-  cases merged_class ctx ms w with
+  cases tm_class ctx ms w with
   | both ea eb em =>
     cases hv : AMap.get H.wordinfo w with
     | none =>
@@ -226,7 +226,7 @@ theorem merged_pt (ctx : TCtx c H T a b Ta Tb Da Db) (ms : MergedSpec H a b M) (
         simp only [pvalPosting]
         have hres := ctx.base.core.struct.refs w o hv
         obtain ⟨s0, hs0⟩ := Option.isSome_iff_exists.mp hres
-        obtain ⟨ta, tb, s, hta, htb, hs, hm⟩ := merged_tree_shared ctx ms o s0 hs0
+        obtain ⟨ta, tb, s, hta, htb, hs, hm⟩ := tm_tree_shared ctx ms o s0 hs0
         rw [hs, hta, htb]
         simp only [Option.getD_some]
         have hsa : tdirty a.writes (.tree o) = false → ta = s0 := by
